@@ -870,6 +870,8 @@ class NpProxy:
     def sum(self, x, *a, **kw):
         if self._anysym(x):
             self.used.add("sum")
+            if is_sym(x):
+                return x  # numpy.sum of a scalar is the scalar
             tot = 0
             for e in self._obj(x).flat:
                 tot = tot + e
@@ -1033,6 +1035,16 @@ class patched:
 
 
 _MISSING = object()
+
+
+def float_shadow(x=0.0):
+    """module-global shadow of the builtin float: identity on symbolic values (exact-real model), the real
+    float otherwise. Injected into target modules so that `float(value)` on a symbolic value stays symbolic."""
+    import builtins
+
+    if is_sym(x):
+        return x.re if isinstance(x, CV) and _num(x.im) and x.im == 0 else x
+    return builtins.float(x)
 
 
 def real_var(name):
